@@ -220,6 +220,12 @@ func Gen(seed int64, index int, o GenOpts) *Case {
 				sr = []int{44100, 48000}[pick(2)]
 			}
 			ts = TrackSpec{Kind: AAC, ClockRate: sr, AAC: mpeg4audio.Config{Type: 2, SampleRate: sr, ChannelCount: 1 + pick(2)}}
+			if sr <= 48000 && (uint64(seed)*7+uint64(index)*3+uint64(i))%4 == 0 {
+				// HE-AAC with explicit SBR signalling: the core rate stays the track's clock rate
+				ts.AAC.ExtensionType = mpeg4audio.ObjectTypeSBR
+				ts.AAC.ExtensionSampleRate = 2 * sr
+				c.Features["he-aac"] = true
+			}
 			if v == VarTS && chance(0.4) {
 				ts.ClockRate = []int{90000, 48000, 44100, 1000000}[pick(4)]
 			}
